@@ -96,7 +96,7 @@ def r3(ctx):
         ctx.check('absorb_frequency_steer|applied-change', ok, 'absorbed change is %s' % N(b.call_args(c)[2])[:160], c.where(), sample=N(b.call_args(c)[2])[:100])
         ctx.guard(b, c, 'set-ok', fact_is(r'^Result::branch\(Clock::set_frequency\(', 'Continue'), key='absorb_frequency_steer|after-set_frequency-ok')
         gf = one(b.calls(r'Clock::get_frequency$'), 'get_frequency')
-        ctx.check('get_frequency|before-set', blocks_must_pass_block(b, sf.bb, [gf.bb]) and not b.can_reach(sf.bb, gf.bb) or blocks_must_pass_block(b, sf.bb, [gf.bb]), 'current frequency is not read before the change', gf.where(), sample=True)
+        ctx.check('get_frequency|before-set', blocks_must_pass_block(b, sf.bb, [gf.bb]), 'current frequency is not read before the change', gf.where(), sample=True)
     ctx.check('set_frequency|always-absorbed', passes_before_ok(b, sf.bb, [c.bb for c in ab]), 'a successful return is reachable after set_frequency without absorb_frequency_steer', sf.where(), sample=len(ab))
     st = one(b.calls(r'Clock::step_clock$'), 'step_clock')
     d = S(b.call_args(st)[1])
